@@ -68,10 +68,15 @@ func (c *Ctx) checkTailCallShape() {
 	// function templates: AddFuncScope first, RemoveScope Return last
 	for _, fn := range []string{"buildSexpFun", "FuncBuilder"} {
 		n := 0
+		dedup := map[string]bool{}
 		for _, t := range es.templates {
 			if t.fn != fn || t.what != "return" || len(t.seq) < 3 {
 				continue
 			}
+			if dedup[seqString(t.seq)] {
+				continue
+			}
+			dedup[seqString(t.seq)] = true
 			n++
 			first := t.seq[0].kind == "AddFuncScopeInstr"
 			last := t.seq[len(t.seq)-1].kind == "ReturnInstr" && t.seq[len(t.seq)-2].kind == "RemoveScopeInstr"
